@@ -57,7 +57,12 @@ def _comp_cases():
         lambda s, t, e: {"lat": s[0], "lon": s[1], "alt": s[2], "elapsed": e,
                          "start": iso(t.replace(hour=0, minute=0, second=0, microsecond=0) - timedelta(seconds=e))},
         _sites(), eop_instants(margin_days=5), st.one_of(st.integers(0, 900), st.sampled_from([0, 60, 300, 86400])))
-    return st.one_of(free, free, on_midnight)
+    # epochs in the last two minutes of a UTC day: the other time scales of the reduction (TAI, TT = UTC + 67..69 s) roll over there
+    late = st.builds(
+        lambda s, t, e, sec: {"lat": s[0], "lon": s[1], "alt": s[2], "elapsed": e,
+                              "start": iso(t.replace(hour=23, minute=58, second=0, microsecond=0) + timedelta(seconds=sec) - timedelta(seconds=e))},
+        _sites(), eop_instants(margin_days=5), st.one_of(st.integers(0, 900), st.sampled_from([0, 60, 300])), st.integers(0, 119))
+    return st.one_of(free, free, on_midnight, late)
 
 
 def _expect(case, when, state, rec, what):
@@ -122,6 +127,26 @@ def component(c, rec):
     if el > 0:
         x1 = dyn.propagate(0.0, float(el), x0)
         _expect(c, when, x1, rec, f"Terrestrial.propagate to start+{el}s")
+        # uniform rotation: three epochs one minute apart are separated by chords of equal length whatever the axis (precession and
+        # nutation change by < 1e-10 rad per minute).  A day slip of any argument of the reduction at some instant in between shows
+        # as a step of metres; only the daily Earth-orientation table may step (<= 1e-7 rad ~ 0.6 m) at 00:00 UTC.
+        if el >= 60:
+            xa = np.asarray(dyn.propagate(0.0, float(el - 60), x0), dtype=float)
+            xc = np.asarray(dyn.propagate(0.0, float(el + 60), x0), dtype=float)
+            xb = np.asarray(x1, dtype=float)
+            chord_ab, chord_bc = float(np.linalg.norm(xb[:3] - xa[:3])), float(np.linalg.norm(xc[:3] - xb[:3]))
+            crosses_utc_midnight = (when - timedelta(seconds=60)).date() != (when + timedelta(seconds=60)).date()
+            from vf.strategies.instants import LEAP_SECOND_DATES
+            from vf.runner import Skip as _Skip
+
+            if crosses_utc_midnight and ((when + timedelta(seconds=60)).date() in LEAP_SECOND_DATES or (when - timedelta(seconds=60)).date() in LEAP_SECOND_DATES):
+                rec.label("leap_second_window_not_compared")
+                crosses_utc_midnight = None
+            if crosses_utc_midnight is not None:
+                rec.err("chord_difference_km" + (":utc_midnight" if crosses_utc_midnight else ""), abs(chord_ab - chord_bc))
+            # (the daily UT1-UTC step reaches ~2 ms = 1 m at the equator: 3 m allowed across 00:00 UTC, 5 cm elsewhere; observed 1.1 m / 0.01 mm)
+            if crosses_utc_midnight is not None and abs(chord_ab - chord_bc) > (3e-3 if crosses_utc_midnight else 5e-5):
+                raise Violation("ground_rotation_uniform", f"ground site moves {chord_ab * 1e3:.3f} m in the minute before {when.isoformat()} and {chord_bc * 1e3:.3f} m in the minute after (lat={c['lat']!r}, lon={c['lon']!r})")
         # stepping in two legs lands at the same place
         x_mid = dyn.propagate(0.0, float(el // 2), x0)
         x2 = dyn.propagate(float(el // 2), float(el), x_mid)
